@@ -9,8 +9,10 @@ import (
 	"encoding/json"
 	"flag"
 	"fmt"
+	"os"
 	"strings"
 
+	"verifharness/internal/errgen"
 	"verifharness/internal/hx"
 	"verifharness/internal/prng"
 
@@ -40,7 +42,7 @@ type Obj struct {
 	B string
 }
 
-var objects = []Obj{{7, "x"}, {0, ""}, {-42, "\x1bjson: \"q\""}}
+var objects = []Obj{{7, "x"}, {0, ""}, {-42, "\x1bjson: \"q\""}, {5, "50% done, 100%"}, {6, "%s %d %!v %"}}
 
 func objJSON(o Obj) string {
 	b, err := json.Marshal(o)
@@ -70,10 +72,22 @@ var texts = []string{
 	"\x1bjson5\x1bjson",
 	"rpc error: code = NotFound desc = fake",
 	"héllo ✓ json\x1b",
+	// texts that are harmless as data and harmful as a format string
+	"50% done",
+	"100%",
+	"%",
+	"%s",
+	"%!",
+	"%d items: %v%",
 }
 
+// texts used with the separator-less wrap fmt.Errorf("%s%w", t, e): the text stands directly in front of
+// the inner message (a trailing '%' directly before an embed marker).  None ends with a piece of the
+// marker: without a separator a marker could otherwise form across the junction.
+var glueTexts = []string{"100%", "%", "pre ", "%s", "\x1bjson", ""}
+
 // number of texts at the front of the alphabet that are used as status / plain leaf messages too
-var markerFree = []int{0, 1, 2, 3, 4, 5, 6, 7, 15, 16}
+var markerFree = []int{0, 1, 2, 3, 4, 5, 6, 7, 15, 16, 17, 18, 19, 20, 21, 22}
 
 // ---- case description (what --from reads back) ----
 
@@ -84,7 +98,7 @@ type Leaf struct {
 }
 
 type Frame struct {
-	K string `json:"k"`           // "W" fmt.Errorf("%s: %w", T, e), "E" EmbedObject(objects[O], e)
+	K string `json:"k"`           // "W" fmt.Errorf("%s: %w", T, e), "G" fmt.Errorf("%s%w", T, e), "E" EmbedObject(objects[O], e)
 	T string `json:"t,omitempty"` // text (W)
 	O int    `json:"o,omitempty"` // object index (E)
 }
@@ -155,15 +169,35 @@ func coqFrame(f Frame) string {
 	switch f.K {
 	case "W":
 		return "FWrap " + coqText(f.T)
+	case "G":
+		return "FGlue " + coqText(f.T)
 	case "E":
 		return fmt.Sprintf("FEmbed O%d", f.O)
 	}
 	panic("bad frame " + f.K)
 }
 
-func header() string {
+// the classes that have a gRPC code in the tree under test: the keys of errorsToCode, read from the
+// source on every run (errgen); the model's ten when the source cannot be read
+var builtinCoded = []string{"ErrExist", "ErrNotExist", "ErrInvalid", "ErrNotAuthorized", "ErrInternal", "ErrDataLoss",
+	"ErrExhausted", "ErrUnimplemented", "ErrConflict", "ErrCanceled"}
+
+func codedClasses() ([]string, string) {
+	repo := os.Getenv("VERIF_REPO")
+	if repo == "" {
+		repo = "/repo"
+	}
+	cs, err := errgen.CodedClasses(repo)
+	if err != nil {
+		return builtinCoded, "built-in list (errorsToCode of " + repo + " not readable: " + err.Error() + ")"
+	}
+	return cs, "errorsToCode of " + repo
+}
+
+func header(coded []string) string {
 	var sb strings.Builder
 	sb.WriteString("From Coq Require Import List NArith.\nFrom GL Require Import model.Errors run.Run_C19.\nImport ListNotations.\n")
+	sb.WriteString("Definition CODED : list class := " + hx.List(coded) + ".\n")
 	for i, o := range objects {
 		n := fmt.Sprintf("O%d", i)
 		jsonName[objJSON(o)] = n
@@ -295,6 +329,8 @@ func build(c Case) (err error, ok bool) {
 		f := c.Frames[i]
 		if f.K == "W" {
 			err = fmt.Errorf("%s: %w", f.T, err)
+		} else if f.K == "G" {
+			err = fmt.Errorf("%s%w", f.T, err)
 		} else {
 			err = ge.EmbedObject(objects[f.O], err)
 		}
@@ -321,7 +357,7 @@ func (r *runner) run(c Case) string {
 	} else if c.Leaf.K == "G" {
 		s.Count("code:" + codeNames[c.Leaf.C])
 	}
-	head := fmt.Sprintf("mkCase %s %s (%s) %s", hx.N(c.ID), hx.Bool(c.Exact), coqLeaf(c.Leaf), hx.List(frames))
+	head := fmt.Sprintf("mkCase %s %s CODED (%s) %s", hx.N(c.ID), hx.Bool(c.Exact), coqLeaf(c.Leaf), hx.List(frames))
 	nilObs := Obs{Nil: true, From: -1}.coq()
 	e, ok := build(c)
 	if !ok {
@@ -404,7 +440,10 @@ func leaves() []Leaf {
 func main() {
 	exact := flag.Bool("exact", false, "compare every observable with the model, also the ones the property does not name")
 	fl := hx.ParseFlags()
-	s := hx.NewSink(fl, header(), "case")
+	coded, codedFrom := codedClasses()
+	s := hx.NewSink(fl, header(coded), "case")
+	s.Extra["classes_with_code"] = coded
+	s.Extra["classes_with_code_from"] = codedFrom
 	r := &runner{s: s, exact: *exact}
 	if *exact {
 		// assumption of the byte-level rendering: sentinel texts and code names contain no ESC byte
@@ -502,6 +541,33 @@ func main() {
 			}
 		}
 	}
+	// 1c. the separator-less wrap directly outside / inside an embed and around plain wraps
+	for _, l := range all {
+		if l.K == "G" && l.C == 0 {
+			continue
+		}
+		for _, gt := range glueTexts {
+			for _, sh := range [][]string{{"G"}, {"G", "E"}, {"W", "G", "E"}, {"G", "E", "W"}, {"G", "W", "E"}, {"E", "G"}} {
+				n++
+				lf := l
+				if lf.K != "S" {
+					lf.T = texts[markerFree[n%len(markerFree)]]
+				}
+				fr := make([]Frame, len(sh))
+				for i, k := range sh {
+					switch k {
+					case "G":
+						fr[i] = Frame{K: "G", T: gt}
+					case "W":
+						fr[i] = Frame{K: "W", T: texts[markerFree[(n+i)%len(markerFree)]]}
+					default:
+						fr[i] = Frame{K: "E", O: n % len(objects)}
+					}
+				}
+				emit(lf, fr)
+			}
+		}
+	}
 	s.Extra["exhaustive_cases"] = n
 	// 2. seeded: mixed texts, deeper chains, second embeds (EmbedObject must panic), embeds over marker texts
 	nrand := 2400
@@ -537,6 +603,8 @@ func main() {
 		for j := range fr {
 			if j == pe || j == pe2 {
 				fr[j] = Frame{K: "E", O: g.Intn(len(objects))}
+			} else if g.Chance(1, 7) {
+				fr[j] = Frame{K: "G", T: prng.Pick(g, glueTexts)}
 			} else if g.Chance(3, 4) {
 				fr[j] = Frame{K: "W", T: texts[prng.Pick(g, markerFree)]}
 			} else {
@@ -547,7 +615,7 @@ func main() {
 	}
 	s.Close(fmt.Sprintf("exhaustive: 30 leaves (12 sentinels, status errors of all 17 codes, a class-less error) x all shapes of depth 0..%d "+
 		"(embed nowhere or at one position) x %d texts (the same text in every wrap; leaf messages rotate through the alphabet), and all ordered "+
-		"pairs of texts at depth 2; "+
+		"pairs of texts at depth 2, and the separator-less wrap fmt.Errorf(\"%%s%%w\") with 6 texts (trailing '%%', a marker) in 6 shapes around an embed; "+
 		"seeded: %d chains with mixed texts, depths up to %d, second embeds and embeds over texts that contain markers. Each case observes Is "+
 		"for all 12 classes, GRPCStatusCode, FromGRPCError and ExtractObject on e, GRPCWrap(e), the transported GRPCWrap(e) and the "+
 		"transported e; by default only the observables the property names decide (class after GRPCWrap and after transport, idempotence, "+
